@@ -106,6 +106,7 @@ theorem build_spec {T} (bs : List (Blk T)) (s : State T) (last : Option Str) (ts
       cases hsrc : b.src with
       | stale => simp [hsrc] at hts
       | fail => simp [hsrc] at hts
+      | noCell => simp [hsrc] at hts
       | name n =>
         simp only [hsrc] at hts ⊢
         cases hrest : Spec.tables bs with
@@ -221,6 +222,145 @@ theorem build_fails_only_on_bad_name {T} (bs : List (Blk T)) (e : Err) (h : ofBl
   | some ts =>
     obtain ⟨s, h1, _⟩ := bundle_refines_spec bs ts hts
     rw [h] at h1; cases h1
+
+/-! ## representations: Tables, table frames when requested, or the alternative representation supplied -/
+
+/-- **what is stored**: the table's frame exactly when frames were requested and the block value has one
+    (a Table); otherwise the supplied object itself (Table, JsonData dict, cell grid) -/
+theorem stored_spec {T} (asDf : Bool) (b : RBlk T) :
+    (toBlk asDf b).val = (if asDf then b.df.getD b.val else b.val) := by
+  cases asDf <;> cases h : b.df <;> simp [toBlk, storedOf, h]
+
+/-- the name of a Table / JsonData block is its own `name`; type flag and identity pass through -/
+theorem name_of_named {T} (asDf : Bool) (b : RBlk T) (n : Str)
+    (h : b.rep = .named n ∨ b.rep = .dict (some n)) :
+    (toBlk asDf b).src = .name n ∧ (toBlk asDf b).isTable = b.isTable := by
+  rcases h with h | h <;> simp [toBlk, nameSrcOf, h]
+
+theorem lstrip_append_nonspace (ws : Str) (rest : Str) (hws : ∀ c ∈ ws, isSpace c = true)
+    (hr : ∀ c, rest.head? = some c → isSpace c = false) : lstrip (ws ++ rest) = rest := by
+  induction ws with
+  | nil =>
+    cases rest with
+    | nil => rfl
+    | cons c r =>
+      have := hr c rfl
+      simp [lstrip, List.dropWhile_cons, this]
+  | cons w ws ih =>
+    have hw := hws w (by simp)
+    simp only [List.cons_append, lstrip, List.dropWhile_cons, hw, if_true]
+    exact ih (fun c hc => hws c (List.mem_cons_of_mem _ hc))
+
+theorem takeWhile_name (n rest : Str) (hnb : ∀ c ∈ n, isSpace c = false)
+    (hrest : ∀ c, rest.head? = some c → isSpace c = true) :
+    (n ++ rest).takeWhile (fun c => !isSpace c) = n := by
+  induction n with
+  | nil =>
+    cases rest with
+    | nil => rfl
+    | cons r rs =>
+      have := hrest r rfl
+      simp [List.takeWhile_cons, this]
+  | cons c cs ih =>
+    have hc := hnb c (by simp)
+    simp only [List.cons_append, List.takeWhile_cons, hc, Bool.not_false, if_true, List.cons.injEq, true_and]
+    exact ih (fun x hx => hnb x (List.mem_cons_of_mem _ hx))
+
+/-- **the name of a cell-grid block**: leading blanks, `**`, then the name — the maximal blank-free run — whatever
+    follows after the next blank (this is the regex `^\s*\*\*(\S+)\s*` of `bundle_name_regex_pinned`) -/
+theorem gridName_spec (ws n rest : Str) (hws : ∀ c ∈ ws, isSpace c = true) (hn : n ≠ [])
+    (hnb : ∀ c ∈ n, isSpace c = false) (hrest : ∀ c, rest.head? = some c → isSpace c = true) :
+    gridName (ws ++ "**".toList ++ n ++ rest) = some n := by
+  unfold gridName
+  have h1 : lstrip (ws ++ "**".toList ++ n ++ rest) = '*' :: '*' :: (n ++ rest) := by
+    rw [List.append_assoc, List.append_assoc]
+    rw [lstrip_append_nonspace ws _ hws]
+    · rfl
+    · intro c hc
+      simp at hc
+      subst hc
+      decide
+  rw [h1]
+  have h2 := takeWhile_name n rest hnb hrest
+  simp only [h2]
+  cases n with
+  | nil => exact absurd rfl hn
+  | cons c cs => rfl
+
+/-- a first cell that, after its leading blanks, does not start with `**` names no table -/
+theorem gridName_none (s : Str) (h : ∀ r, lstrip s ≠ '*' :: '*' :: r) : gridName s = none := by
+  unfold gridName
+  split
+  · rename_i rest heq; exact absurd heq (h rest)
+  · rfl
+
+/-- a cell grid yields a name only with at least two rows and a text first cell -/
+theorem grid_name_src (nRows : Nat) (c0 : Cell0) (n : Str) :
+    nameSrcOf (.grid nRows c0) = .name n ↔ nRows > 1 ∧ ∃ s, c0 = .str s ∧ gridName s = some n := by
+  unfold nameSrcOf
+  by_cases h : nRows > 1
+  · cases c0 with
+    | noCell => simp [h]
+    | notStr => simp [h]
+    | str s =>
+      cases hg : gridName s <;> simp [h, hg]
+  · simp [h]
+
+/-- **the refinement for supplied blocks**: whenever every TABLE block's name can be extracted, the bundle built
+    with or without `as_dataframe` holds exactly the stored forms of the TABLE blocks, in input order, and every
+    accessor agrees with that list (all clauses of `bundle_refines_spec`, `unique_spec`, `getitem_int_spec` apply
+    to `bs.map (toBlk asDf)`) -/
+theorem supplied_refines_spec {T} (asDf : Bool) (bs : List (RBlk T)) (ts : List (Str × T))
+    (hts : Spec.tables (bs.map (toBlk asDf)) = some ts) :
+    ∃ s, ofSupplied asDf bs = .ok s ∧ iter s = ts.map (·.2) ∧ len s = ts.length ∧
+      (∀ n, all s n = Spec.named ts n) ∧ (∀ n, contains s n = true ↔ Spec.named ts n ≠ []) :=
+  bundle_refines_spec _ ts hts
+
+/-- the stored objects are, in order, `storedOf asDf` of the TABLE blocks -/
+theorem supplied_tables_values {T} (asDf : Bool) (bs : List (RBlk T)) (ts : List (Str × T))
+    (hts : Spec.tables (bs.map (toBlk asDf)) = some ts) :
+    ts.map (·.2) = (bs.filter (·.isTable)).map (storedOf asDf) := by
+  induction bs generalizing ts with
+  | nil => simp [Spec.tables] at hts; subst hts; rfl
+  | cons b bs ih =>
+    simp only [List.map_cons, Spec.tables] at hts
+    by_cases hb : b.isTable = true
+    · simp only [toBlk, hb, Bool.not_true, Bool.false_eq_true, if_false] at hts
+      cases hsrc : nameSrcOf b.rep with
+      | name n =>
+        simp only [hsrc] at hts
+        cases hrest : Spec.tables (bs.map (toBlk asDf)) with
+        | none => simp [hrest] at hts
+        | some ts' =>
+          simp [hrest] at hts; subst hts
+          simp [List.filter_cons, hb, ih ts' hrest]
+      | stale => simp [hsrc] at hts
+      | fail => simp [hsrc] at hts
+      | noCell => simp [hsrc] at hts
+    · have hb' : b.isTable = false := by simpa using hb
+      simp only [toBlk, hb', Bool.not_false, if_true] at hts
+      simp [List.filter_cons, hb', ih ts hts]
+
+/-! ## item access -/
+
+/-- `bundle[name]` is `unique(name)`; `bundle[i]` is positional; a bool is the integer 0 / 1; anything else
+    is a TypeError -/
+theorem getitem_spec {T} (s : State T) :
+    (∀ n, getitem s (.str n) = unique s n) ∧ (∀ i, getitem s (.int i) = getitemInt s i) ∧
+    getitem s (.bool true) = getitemInt s 1 ∧ getitem s (.bool false) = getitemInt s 0 ∧
+    getitem s .other = .error .typeError := ⟨fun _ => rfl, fun _ => rfl, rfl, rfl, rfl⟩
+
+/-- non-vacuity of `gridName_spec`: a padded transposed-table marker followed by a comment -/
+example : gridName " \t**farm_animals* ignored".toList = some "farm_animals*".toList := by decide
+
+/-- non-vacuity of the supplied form: a Table (frames requested), a JsonData dict, a cell grid, a non-table block -/
+example :
+    let bs : List (RBlk Nat) := [⟨true, .named "a".toList, 1, some 101⟩, ⟨false, .opaque, 2, none⟩,
+                                 ⟨true, .dict (some "b".toList), 3, none⟩,
+                                 ⟨true, .grid 2 (.str " **a x".toList), 4, none⟩]
+    (ofSupplied true bs).toOption.map iter = some [101, 3, 4] ∧
+    (ofSupplied false bs).toOption.map iter = some [1, 3, 4] ∧
+    (ofSupplied true bs).toOption.map (all · "a".toList) = some [101, 4] := by decide
 
 /-- non-vacuity: three tables, two sharing a name, interleaved with other blocks -/
 example :
